@@ -70,8 +70,9 @@ def mk_frame(kind, n, D, tc):
         ver = (h ^ 0x5A5A5A5A) or 1
     elif kind in ("ver0", "ack", "signal", "unknown", "unknown_unsub"):
         ver = 0 if kind != "signal" else h
-    hdr = W.pack_header(t, msg_count=n + 1, send_time=1000.5 + n, recv_time=0.0, src_host=1, src_mod=7, dest_host=0, dest_mod=0,
-                        nbytes=ln, remaining=n, is_dynamic=0, reserved=ver, timecode=tc, tc=(n, n + 1))
+    hdr = W.pack_header(t, msg_count=n + 1, send_time=1000.5 + n, recv_time=0.0, src_host=[1, 0, -1, 32767][n % 4], src_mod=[7, 0, 200, -5][n % 4],
+                        dest_host=[0, 5, -1][n % 3], dest_mod=[0, 33, 32767, -32768][(n // 2) % 4],
+                        nbytes=ln, remaining=[n, -1, 2 ** 31 - 1][n % 3], is_dynamic=[0, 1, -7][n % 3], reserved=ver, timecode=tc, tc=(n, n + 1))
     return {"kind": kind, "type": t, "declared": ln, "version": ver, "hex": (hdr + payload).hex(), "hlen": len(hdr)}
 
 
